@@ -161,7 +161,8 @@ func runStageCase(in StageInput) (*common.Case, error) {
 
 func genStageInput(r *rng.R) StageInput {
 	in := StageInput{Mode: r.Intn(8), Files: 1 + r.Intn(6), Size: 200 + r.Intn(6000)}
-	sinks := []string{"full", "closed", "limit", "limit", "limit", "none"}
+	// (a closed stdout is no reliable failing sink: the descriptor number is reused by the next open)
+	sinks := []string{"full", "full", "limit", "limit", "limit", "none"}
 	if in.Mode >= 5 {
 		sinks = append(sinks, "badcomp", "badcomp")
 	}
